@@ -1,8 +1,216 @@
-/- line-protocol handlers for the C08 models (stub: nothing modelled yet) -/
-import FontVerif.Model.Base
-namespace FontVerif.Drv.C08
-open FontVerif
+/- line-protocol handlers for the C08 models (Model/Cmap.lean)
 
-def handle (_cmd : String) (_args : List String) : Option String := none
+Sections of a request are separated by a `|` token.  A mapping is a list of run tokens
+`c,g,n,d` = pairs `(c + k, g + d·k)` for `k < n` (in that order); `-` = empty section.
+-/
+import FontVerif.Model.Cmap
+namespace FontVerif.Drv.C08
+open FontVerif FontVerif.Cmap
+
+def splitSections (args : List String) : List (List String) :=
+  let rec go : List String → List String → List (List String) → List (List String)
+    | [], cur, acc => (cur.reverse :: acc).reverse
+    | "|" :: rest, cur, acc => go rest [] (cur.reverse :: acc)
+    | "-" :: rest, cur, acc => go rest cur acc
+    | a :: rest, cur, acc => go rest (a :: cur) acc
+  go args [] []
+
+def commaInts? (s : String) : Option (List Int) := parseInts? (s.splitOn ",")
+def commaNats? (s : String) : Option (List Nat) := parseNats? (s.splitOn ",")
+
+def expandRun (c g : Nat) (n : Nat) (d : Int) : Mapping :=
+  (List.range n).map (fun k => (c + k, ((g : Int) + d * (k : Int)).toNat))
+
+def parseMapping? (toks : List String) : Option Mapping := do
+  let runs ← toks.mapM (fun t => do
+    match ← commaInts? t with
+    | [c, g, n, d] => if c < 0 ∨ g < 0 ∨ n < 0 then none else some (expandRun c.toNat g.toNat n.toNat d)
+    | _ => none)
+  pure runs.flatten
+
+def parseTriples? (toks : List String) : Option (List (Nat × Nat × Nat)) :=
+  toks.mapM (fun t => do
+    match ← commaNats? t with
+    | [a, b, c] => some (a, b, c)
+    | _ => none)
+
+def parsePairs? (toks : List String) : Option (List (Nat × Nat)) :=
+  toks.mapM (fun t => do
+    match ← commaNats? t with
+    | [a, b] => some (a, b)
+    | _ => none)
+
+/-- code points: comma separated, `a..b` = inclusive range -/
+def parseCps? (toks : List String) : Option (List Nat) := do
+  let parts ← (toks.flatMap (·.splitOn ",")).mapM (fun t =>
+    match t.splitOn ".." with
+    | [a] => do let a ← parseNat? a; pure [a]
+    | [a, b] => do
+      let a ← parseNat? a; let b ← parseNat? b
+      pure (List.range' a (b + 1 - a))
+    | _ => none)
+  pure parts.flatten
+
+def optNat : Option Nat → String
+  | none => "none"
+  | some v => toString v
+
+def showOpts (xs : List (Option Nat)) : String :=
+  if xs.isEmpty then "-" else " ".intercalate (xs.map optNat)
+
+def showPairs (xs : List (Nat × Nat)) : String :=
+  if xs.isEmpty then "-" else " ".intercalate (xs.map (fun p => s!"{p.1}:{p.2}"))
+
+def showGroups (xs : List Group) : String :=
+  if xs.isEmpty then "-" else " ".intercalate (xs.map (fun p => s!"{p.1},{p.2.1},{p.2.2}"))
+
+def showCmap4 (t : Cmap4) : String :=
+  s!"{joinNats t.endCode.toList} | {joinNats t.startCode.toList} | {joinInts t.idDelta.toList} | {joinNats t.idRangeOffsets.toList} | {joinNats t.glyphIdArray.toList}"
+
+/-- run `k` on the built table, or print the failure -/
+def withBuilt (raw : Mapping) (k : Built → String) : String :=
+  match fromMappings raw with
+  | .conflict c a b => s!"conflict {c} {a} {b}"
+  | .trap => "trap"
+  | .ok b => k b
+
+def parseCmap4? (secs : List (List String)) : Option Cmap4 :=
+  match secs with
+  | [e, s, d, r, g] => do
+    let e ← parseNats? e; let s ← parseNats? s; let d ← parseInts? d
+    let r ← parseNats? r; let g ← parseNats? g
+    pure { endCode := e.toArray, startCode := s.toArray, idDelta := d.toArray,
+           idRangeOffsets := r.toArray, glyphIdArray := g.toArray }
+  | _ => none
+
+def parseLimits? (toks : List String) : Option Limits :=
+  match toks with
+  | [] => some none
+  | [a, b] => do let a ← parseNat? a; let b ← parseNat? b; pure (some (a, b))
+  | _ => none
+
+def parseKind? : String → Option SubKind
+  | "f4" => some .f4
+  | "f12" => some .f12
+  | "f14" => some .f14
+  | "x" => some .unsupported
+  | _ => none
+
+def parseRecords? (toks : List String) : Option (List Record) :=
+  toks.mapM (fun t =>
+    match t.splitOn "," with
+    | [p, e, k] => do let p ← parseNat? p; let e ← parseNat? e; let k ← parseKind? k; pure (p, e, k)
+    | _ => none)
+
+def showSel (s : Selection) : String :=
+  s!"{optNat s.codepointIx} {s.isSymbol} {optNat s.variantIx}"
+
+/-- `sel;d:a+n,...;n:c>g,...` (`d`/`n` parts optional, `~` = table absent) -/
+def parseVarSel? (tok : String) : Option VarSel :=
+  match tok.splitOn ";" with
+  | [sel, d, n] => do
+    let sel ← parseNat? sel
+    let d ← if d = "~" then pure none else
+      (do let xs ← ((d.splitOn ",").filter (· ≠ "")).mapM (fun t =>
+            match t.splitOn "+" with
+            | [a, b] => do let a ← parseNat? a; let b ← parseNat? b; pure (a, b)
+            | _ => none)
+          pure (some xs))
+    let n ← if n = "~" then pure none else
+      (do let xs ← ((n.splitOn ",").filter (· ≠ "")).mapM (fun t =>
+            match t.splitOn ">" with
+            | [a, b] => do let a ← parseNat? a; let b ← parseNat? b; pure (a, b)
+            | _ => none)
+          pure (some xs))
+    pure { selector := sel, defaults := d, nonDefaults := n }
+  | _ => none
+
+def showVariant : Option MapVariant → String
+  | none => "none"
+  | some .useDefault => "default"
+  | some (.variant g) => s!"v{g}"
+
+def handle (cmd : String) (args : List String) : Option String :=
+  let secs := splitSections args
+  match cmd, secs with
+  -- builder: compiled arrays
+  | "b4", [m] => do
+    let m ← parseMapping? m
+    pure (withBuilt m fun b => match b.fmt4 with | none => "none" | some t => showCmap4 t)
+  | "b12", [m] => do
+    let m ← parseMapping? m
+    pure (withBuilt m fun b => match b.fmt12 with | none => "none" | some g => showGroups g.toList)
+  -- builder + reader, end to end
+  | "l4", [cps, m] => do
+    let cps ← parseCps? cps; let m ← parseMapping? m
+    pure (withBuilt m fun b => match b.fmt4 with
+      | none => "none" | some t => showOpts (cps.map (map4 t)))
+  | "l12", [cps, m] => do
+    let cps ← parseCps? cps; let m ← parseMapping? m
+    pure (withBuilt m fun b => match b.fmt12 with
+      | none => "none" | some g => showOpts (cps.map (map12 g)))
+  | "lt", [cps, m] => do
+    let cps ← parseCps? cps; let m ← parseMapping? m
+    pure (withBuilt m fun b => showOpts (cps.map (cmapMap b.subtables)))
+  | "i4", [m] => do
+    let m ← parseMapping? m
+    pure (withBuilt m fun b => match b.fmt4 with | none => "none" | some t => showPairs (iter4 t))
+  | "i12", [lim, m] => do
+    let lim ← parseLimits? lim; let m ← parseMapping? m
+    pure (withBuilt m fun b => match b.fmt12 with
+      | none => "none" | some g => showPairs (iter12 g lim))
+  -- is the model's segmentation valid?  (sampled check of `segments_valid`)
+  | "segs", [m] => do
+    let m ← parseMapping? m
+    let m := normalize m
+    pure (" ".intercalate ((segments m).map fun s =>
+      s!"{s.startIx},{s.endIx},{match s.idDelta with | some d => toString d | none => "r"}"))
+  -- reader on arbitrary arrays
+  | "r4.map", cps :: rest => do
+    let cps ← parseCps? cps; let t ← parseCmap4? rest
+    pure (showOpts (cps.map (map4 t)))
+  | "r4.iter", rest => do
+    let t ← parseCmap4? rest
+    pure (showPairs (iter4 t))
+  | "r12.map", [cps, gs] => do
+    let cps ← parseCps? cps; let gs ← parseTriples? gs
+    pure (showOpts (cps.map (map12 gs.toArray)))
+  | "r12.iter", [take, lim, gs] => do
+    let take ← parseNats? take; let lim ← parseLimits? lim; let gs ← parseTriples? gs
+    match take with
+    | [n] => pure (showPairs (iter12N gs.toArray lim n))
+    | _ => none
+  -- table level on arbitrary subtables is covered by `lt`; skrifa selection
+  | "sk.sel", [recs] => do
+    let recs ← parseRecords? recs
+    pure (showSel (select recs))
+  | "sk.map4", cps :: sym :: rest => do
+    let cps ← parseCps? cps; let t ← parseCmap4? rest
+    match sym with
+    | [b] => pure (showOpts (cps.map (charmapMap (.f4 t) (b = "1"))))
+    | _ => none
+  | "sk.map12", [cps, sym, gs] => do
+    let cps ← parseCps? cps; let gs ← parseTriples? gs
+    match sym with
+    | [b] => pure (showOpts (cps.map (charmapMap (.f12 gs.toArray) (b = "1"))))
+    | _ => none
+  | "sk.iter4", rest => do
+    let t ← parseCmap4? rest
+    pure (showPairs (charmapMappings (.f4 t) (0, 0)))
+  | "sk.iter12", [lim, gs] => do
+    let gs ← parseTriples? gs
+    match ← parseLimits? lim with
+    | some l => pure (showPairs (charmapMappings (.f12 gs.toArray) l))
+    | none => none
+  -- format 14
+  | "r14.map", [qs, t] => do
+    let qs ← parsePairs? qs; let t ← t.mapM parseVarSel?
+    pure (" ".intercalate (qs.map fun q => showVariant (mapVariant t q.1 q.2)))
+  | "r14.iter", [t] => do
+    let t ← t.mapM parseVarSel?
+    let items := iter14 t
+    pure (if items.isEmpty then "-" else
+      " ".intercalate (items.map fun x => s!"{x.1},{x.2.1},{showVariant (some x.2.2)}"))
+  | _, _ => none
 
 end FontVerif.Drv.C08
